@@ -298,3 +298,7 @@ class FloatEnumParam(Parameter):
         super().finish(modobj)
         if modobj:
             modobj.addCallback(self.idx_name, self.trigger_setter, modobj)
+            # the cached value has to match the initial index, not the default of the float datatype
+            idx_param = modobj.parameters.get(self.idx_name)
+            if idx_param is not None and idx_param.value in self.valuedict:
+                self.value = self.valuedict[idx_param.value]
